@@ -877,6 +877,360 @@ theorem hinge_vel_aux (a : V3 ℝ) (qd : ℝ) (ha : V3.dot a a = 1) (r : Q4 ℝ)
   linear_combination qd * ha
 
 
+/-! ## ℝ: coordinates in an orthonormal right-handed frame `(a0, a1, a0 × a1)` -/
+
+/-- the vector with coordinates `p` in the frame `(a0, a1, a0 × a1)` -/
+def L (a0 a1 p : V3 ℝ) : V3 ℝ :=
+  ⟨p.x * a0.x + p.y * a1.x + p.z * (V3.cross a0 a1).x,
+   p.x * a0.y + p.y * a1.y + p.z * (V3.cross a0 a1).y,
+   p.x * a0.z + p.y * a1.z + p.z * (V3.cross a0 a1).z⟩
+
+section frame
+variable (a0 a1 : V3 ℝ) (h00 : V3.dot a0 a0 = 1) (h11 : V3.dot a1 a1 = 1) (h01 : V3.dot a0 a1 = 0)
+
+theorem L_e0 : L a0 a1 ⟨1, 0, 0⟩ = a0 := by cases a0; simp [L]
+theorem L_e1 : L a0 a1 ⟨0, 1, 0⟩ = a1 := by cases a1; simp [L]
+theorem L_e2 : L a0 a1 ⟨0, 0, 1⟩ = V3.cross a0 a1 := by simp [L]
+
+theorem L_lin (α β : ℝ) (p q : V3 ℝ) :
+    L a0 a1 ⟨α * p.x + β * q.x, α * p.y + β * q.y, α * p.z + β * q.z⟩
+      = ⟨α * (L a0 a1 p).x + β * (L a0 a1 q).x, α * (L a0 a1 p).y + β * (L a0 a1 q).y,
+         α * (L a0 a1 p).z + β * (L a0 a1 q).z⟩ := by
+  simp only [L]; congr 1 <;> ring
+
+include h00 h11 h01 in
+theorem L_dot (p q : V3 ℝ) : V3.dot (L a0 a1 p) (L a0 a1 q) = V3.dot p q := by
+  simp only [V3.dot] at h00 h11 h01
+  simp only [L, V3.dot, V3.cross]
+  linear_combination (p.x * q.x) * h00 + (p.y * q.y) * h11
+    + (p.z * q.z) * ((a1.x * a1.x + a1.y * a1.y + a1.z * a1.z) * h00 + h11
+        - (a0.x * a1.x + a0.y * a1.y + a0.z * a1.z) * h01)
+    + (p.x * q.y + p.y * q.x) * h01
+
+include h00 h11 h01 in
+theorem L_cross (p q : V3 ℝ) : V3.cross (L a0 a1 p) (L a0 a1 q) = L a0 a1 (V3.cross p q) := by
+  simp only [V3.dot] at h00 h11 h01
+  simp only [L, V3.cross]
+  congr 1
+  · linear_combination (p.x * q.z - p.z * q.x) * (a0.x * h01 - a1.x * h00)
+      + (p.y * q.z - p.z * q.y) * (a0.x * h11 - a1.x * h01)
+  · linear_combination (p.x * q.z - p.z * q.x) * (a0.y * h01 - a1.y * h00)
+      + (p.y * q.z - p.z * q.y) * (a0.y * h11 - a1.y * h01)
+  · linear_combination (p.x * q.z - p.z * q.x) * (a0.z * h01 - a1.z * h00)
+      + (p.y * q.z - p.z * q.y) * (a0.z * h11 - a1.z * h01)
+
+/-- rotation about the first frame axis acts on coordinates as `Rx(θ)` -/
+noncomputable def rx (θ : ℝ) (p : V3 ℝ) : V3 ℝ :=
+  ⟨p.x, Real.cos θ * p.y - Real.sin θ * p.z, Real.sin θ * p.y + Real.cos θ * p.z⟩
+noncomputable def ry (θ : ℝ) (p : V3 ℝ) : V3 ℝ :=
+  ⟨Real.cos θ * p.x + Real.sin θ * p.z, p.y, -(Real.sin θ * p.x) + Real.cos θ * p.z⟩
+/-- rotation about `σ·(a0 × a1)`, `σ = ±1` -/
+noncomputable def rz (σ θ : ℝ) (p : V3 ℝ) : V3 ℝ :=
+  ⟨Real.cos θ * p.x - σ * Real.sin θ * p.y, σ * Real.sin θ * p.x + Real.cos θ * p.y, p.z⟩
+
+include h00 h11 h01 in
+theorem rotate_L_x (θ : ℝ) (p : V3 ℝ) :
+    rotate (L a0 a1 p) (quatRotAxis a0 θ) = L a0 a1 (rx θ p) := by
+  rw [rotate_quatRotAxis a0 (L a0 a1 p) θ h00]
+  have hc : V3.cross a0 (L a0 a1 p) = L a0 a1 (V3.cross ⟨1, 0, 0⟩ p) := by
+    rw [← L_cross a0 a1 h00 h11 h01, L_e0]
+  have hd : V3.dot a0 (L a0 a1 p) = p.x := by
+    have := L_dot a0 a1 h00 h11 h01 ⟨1, 0, 0⟩ p
+    rw [L_e0] at this; rw [this]; simp [V3.dot]
+  rw [hc, hd]
+  simp only [L, rx, V3.cross]
+  congr 1 <;> ring
+
+include h00 h11 h01 in
+theorem rotate_L_y (θ : ℝ) (p : V3 ℝ) :
+    rotate (L a0 a1 p) (quatRotAxis a1 θ) = L a0 a1 (ry θ p) := by
+  rw [rotate_quatRotAxis a1 (L a0 a1 p) θ h11]
+  have hc : V3.cross a1 (L a0 a1 p) = L a0 a1 (V3.cross ⟨0, 1, 0⟩ p) := by
+    rw [← L_cross a0 a1 h00 h11 h01, L_e1]
+  have hd : V3.dot a1 (L a0 a1 p) = p.y := by
+    have := L_dot a0 a1 h00 h11 h01 ⟨0, 1, 0⟩ p
+    rw [L_e1] at this; rw [this]; simp [V3.dot]
+  rw [hc, hd]
+  simp only [L, ry, V3.cross]
+  congr 1 <;> ring
+
+include h00 h11 h01 in
+theorem L_normSq_cross : V3.dot (V3.cross a0 a1) (V3.cross a0 a1) = 1 :=
+  cross_unit_normSq a0 a1 h00 h11 h01
+
+include h00 h11 h01 in
+theorem rotate_L_z (σ θ : ℝ) (hσ : σ * σ = 1) (p : V3 ℝ) :
+    rotate (L a0 a1 p) (quatRotAxis (L a0 a1 ⟨0, 0, σ⟩) θ) = L a0 a1 (rz σ θ p) := by
+  have hu : V3.dot (L a0 a1 ⟨0, 0, σ⟩) (L a0 a1 ⟨0, 0, σ⟩) = 1 := by
+    rw [L_dot a0 a1 h00 h11 h01]; simp [V3.dot, hσ]
+  rw [rotate_quatRotAxis _ (L a0 a1 p) θ hu, L_cross a0 a1 h00 h11 h01, L_dot a0 a1 h00 h11 h01]
+  simp only [L, rz, V3.cross, V3.dot]
+  congr 1
+  · linear_combination ((1 - Real.cos θ) * p.z * (a0.y * a1.z - a0.z * a1.y)) * hσ
+  · linear_combination ((1 - Real.cos θ) * p.z * (a0.z * a1.x - a0.x * a1.z)) * hσ
+  · linear_combination ((1 - Real.cos θ) * p.z * (a0.x * a1.y - a0.y * a1.x)) * hσ
+
+theorem L_scale (k : ℝ) (u : V3 ℝ) :
+    L a0 a1 ⟨k * u.x, k * u.y, k * u.z⟩
+      = ⟨k * (L a0 a1 u).x, k * (L a0 a1 u).y, k * (L a0 a1 u).z⟩ := by
+  simp only [L]; congr 1 <;> ring
+
+include h00 h11 h01 in
+theorem dot_a0_L (p : V3 ℝ) : V3.dot a0 (L a0 a1 p) = p.x := by
+  have := L_dot a0 a1 h00 h11 h01 ⟨1, 0, 0⟩ p
+  rw [L_e0] at this; rw [this]; simp [V3.dot]
+
+include h00 h11 h01 in
+theorem dot_a1_L (p : V3 ℝ) : V3.dot a1 (L a0 a1 p) = p.y := by
+  have := L_dot a0 a1 h00 h11 h01 ⟨0, 1, 0⟩ p
+  rw [L_e1] at this; rw [this]; simp [V3.dot]
+
+include h00 h11 h01 in
+theorem cross_L_a0 (p : V3 ℝ) : V3.cross (L a0 a1 p) a0 = L a0 a1 ⟨0, p.z, -p.y⟩ := by
+  have := L_cross a0 a1 h00 h11 h01 p ⟨1, 0, 0⟩
+  rw [L_e0] at this; rw [this]; congr 1; simp [V3.cross]
+
+include h00 h11 h01 in
+theorem cross_a1_L (p : V3 ℝ) : V3.cross a1 (L a0 a1 p) = L a0 a1 ⟨p.z, 0, -p.x⟩ := by
+  have := L_cross a0 a1 h00 h11 h01 ⟨0, 1, 0⟩ p
+  rw [L_e1] at this; rw [this]; congr 1; simp [V3.cross]
+
+include h00 h11 h01 in
+/-- normalising `k·u` (coordinates, `u` unit, `k > 0`) gives `u` -/
+theorem normalize3_L_scale (k : ℝ) (u : V3 ℝ) (hu : V3.dot u u = 1) (hk : 1e-7 < k) :
+    normalize3 (L a0 a1 ⟨k * u.x, k * u.y, k * u.z⟩) = L a0 a1 u := by
+  rw [L_scale]
+  exact normalize3_pos_scale (L a0 a1 u) k (by rw [L_dot a0 a1 h00 h11 h01, hu]) hk
+
+include h00 h11 h01 in
+/-- the three child axes of the frame under `R(a0,q0)·R(a1,q1)` in coordinates -/
+theorem child_hh (q0 q1 : ℝ) (e : V3 ℝ) :
+    rotate (L a0 a1 e) (quatMul (quatRotAxis a0 q0) (quatRotAxis a1 q1))
+      = L a0 a1 (rx q0 (ry q1 e)) := by
+  rw [rotate_quatMul, rotate_L_y a0 a1 h00 h11 h01, rotate_L_x a0 a1 h00 h11 h01]
+
+include h00 h11 h01 in
+/-- `psi` and `theta` of `axis_angle_ang` for the frame `(a0, a1, a0×a1)` under `R(a0,q0)·R(a1,q1)` -/
+theorem hinge2_angles (p : V3 ℝ) (q0 q1 par : ℝ) (hq0 : -Real.pi < q0) (hq0' : q0 ≤ Real.pi)
+    (hq1 : |q1| ≤ 6 / 5) :
+    (axisAngleAng ⟨p, quatMul (quatRotAxis a0 q0) (quatRotAxis a1 q1)⟩
+        ⟨a0, a1, V3.cross a0 a1⟩ par).2.psi = q0
+    ∧ (axisAngleAng ⟨p, quatMul (quatRotAxis a0 q0) (quatRotAxis a1 q1)⟩
+        ⟨a0, a1, V3.cross a0 a1⟩ par).2.theta = q1 := by
+  have hcos := cos_ge_of_abs_le q1 hq1
+  have hpi : |q1| < Real.pi := lt_of_le_of_lt hq1 (by linarith [Real.two_le_pi])
+  have hcs0 := Real.sin_sq_add_cos_sq q0
+  have hcs1 := Real.sin_sq_add_cos_sq q1
+  have hc0 := child_hh a0 a1 h00 h11 h01 q0 q1 ⟨1, 0, 0⟩
+  have hc1 := child_hh a0 a1 h00 h11 h01 q0 q1 ⟨0, 1, 0⟩
+  have hc2 := child_hh a0 a1 h00 h11 h01 q0 q1 ⟨0, 0, 1⟩
+  rw [L_e0] at hc0; rw [L_e1] at hc1; rw [L_e2] at hc2
+  -- line of nodes
+  have hlon : normalize3 (V3.cross (L a0 a1 (rx q0 (ry q1 ⟨0, 0, 1⟩))) a0)
+      = L a0 a1 ⟨0, Real.cos q0, Real.sin q0⟩ := by
+    rw [cross_L_a0 a0 a1 h00 h11 h01]
+    have : (⟨0, (rx q0 (ry q1 ⟨0, 0, 1⟩)).z, -(rx q0 (ry q1 ⟨0, 0, 1⟩)).y⟩ : V3 ℝ)
+        = ⟨Real.cos q1 * 0, Real.cos q1 * Real.cos q0, Real.cos q1 * Real.sin q0⟩ := by
+      simp only [rx, ry]; congr 1 <;> ring
+    rw [this]
+    exact normalize3_L_scale a0 a1 h00 h11 h01 (Real.cos q1) ⟨0, Real.cos q0, Real.sin q0⟩
+      (by simp only [V3.dot]; linear_combination hcs0) (by norm_num; linarith)
+  constructor
+  · simp only [axisAngleAng]
+    rw [hc2, hlon]
+    simp only [signedAngle]
+    rw [cross_a1_L a0 a1 h00 h11 h01, dot_comm _ a0, dot_a0_L a0 a1 h00 h11 h01,
+      dot_a1_L a0 a1 h00 h11 h01]
+    exact atan2_sin_cos q0 hq0 hq0'
+  · simp only [axisAngleAng]
+    rw [hc0, hc1, hc2, dot_a0_L a0 a1 h00 h11 h01, dot_a0_L a0 a1 h00 h11 h01,
+      dot_a0_L a0 a1 h00 h11 h01]
+    have hk0x : (rx q0 (ry q1 ⟨1, 0, 0⟩)).x = Real.cos q1 := by simp [rx, ry]
+    have hk1x : (rx q0 (ry q1 ⟨0, 1, 0⟩)).x = 0 := by simp [rx, ry]
+    have hk2x : (rx q0 (ry q1 ⟨0, 0, 1⟩)).x = Real.sin q1 := by simp [rx, ry]
+    rw [hk0x, hk1x, hk2x]
+    have hraw : (⟨Real.cos q1 * (L a0 a1 (rx q0 (ry q1 ⟨1, 0, 0⟩))).x + 0 * (L a0 a1 (rx q0 (ry q1 ⟨0, 1, 0⟩))).x,
+        Real.cos q1 * (L a0 a1 (rx q0 (ry q1 ⟨1, 0, 0⟩))).y + 0 * (L a0 a1 (rx q0 (ry q1 ⟨0, 1, 0⟩))).y,
+        Real.cos q1 * (L a0 a1 (rx q0 (ry q1 ⟨1, 0, 0⟩))).z + 0 * (L a0 a1 (rx q0 (ry q1 ⟨0, 1, 0⟩))).z⟩ : V3 ℝ)
+        = ⟨Real.cos q1 * (L a0 a1 (rx q0 (ry q1 ⟨1, 0, 0⟩))).x,
+           Real.cos q1 * (L a0 a1 (rx q0 (ry q1 ⟨1, 0, 0⟩))).y,
+           Real.cos q1 * (L a0 a1 (rx q0 (ry q1 ⟨1, 0, 0⟩))).z⟩ := by
+      congr 1 <;> ring
+    have hunit : V3.dot (L a0 a1 (rx q0 (ry q1 ⟨1, 0, 0⟩))) (L a0 a1 (rx q0 (ry q1 ⟨1, 0, 0⟩))) = 1 := by
+      rw [L_dot a0 a1 h00 h11 h01]; simp only [rx, ry, V3.dot]
+      linear_combination hcs1 + (Real.sin q1 ^ 2) * hcs0
+    rw [hraw, normalize3_pos_scale _ _ hunit (by norm_num; linarith), dot_comm _ a0,
+      dot_a0_L a0 a1 h00 h11 h01, hk0x]
+    have hclip : clip (Real.cos q1) (-1) 1 = Real.cos q1 := by
+      rw [clip_eq, max_eq_left (Real.neg_one_le_cos q1), min_eq_left (Real.cos_le_one q1)]
+    rw [hclip]
+    show Real.arccos (Real.cos q1) * signv (Real.sin q1) = q1
+    rw [arccos_cos_abs q1 (le_of_lt hpi)]
+    exact abs_mul_signv_sin q1 hpi
+
+include h00 h11 h01 in
+/-- `x_dof` on two stacked hinges with orthonormal axes: the coordinates are `(q0, q1)` -/
+theorem xDof_two_hinges (p : V3 ℝ) (q0 q1 : ℝ) (jd : Motion ℝ) (pidx : Int)
+    (hq0 : -Real.pi < q0) (hq0' : q0 ≤ Real.pi) (hq1 : |q1| ≤ 6 / 5) :
+    ∃ qd', xDof ⟨p, quatMul (quatRotAxis a0 q0) (quatRotAxis a1 q1)⟩ jd pidx
+        [⟨a0, ⟨0, 0, 0⟩⟩, ⟨a1, ⟨0, 0, 0⟩⟩] = some ([q0, q1], qd') := by
+  have hany0 : v3Any a0 = true := v3Any_of_ne a0 (by rw [h00]; norm_num)
+  have hany1 : v3Any a1 = true := v3Any_of_ne a1 (by rw [h11]; norm_num)
+  have hang := hinge2_angles a0 a1 h00 h11 h01 p q0 q1 1 hq0 hq0' hq1
+  simp only [xDof, linkToJointFrame, hany0, hany1, v3Any_zero, Bool.or_false, Bool.or_self,
+    Bool.and_false, Bool.false_eq_true, if_false, if_true]
+  simp only [List.zip_cons_cons, List.zip_nil_right, List.zipWith_cons_cons, List.zipWith_nil_right,
+    List.map_cons, List.map_nil, hany0, hany1, if_true, hang.1, hang.2]
+  exact ⟨_, rfl⟩
+
+include h00 h11 h01 in
+theorem child_hhh (σ q0 q1 q2 : ℝ) (hσ : σ * σ = 1) (e : V3 ℝ) :
+    rotate (L a0 a1 e) (quatMul (quatMul (quatRotAxis a0 q0) (quatRotAxis a1 q1))
+        (quatRotAxis (L a0 a1 ⟨0, 0, σ⟩) q2))
+      = L a0 a1 (rx q0 (ry q1 (rz σ q2 e))) := by
+  rw [rotate_quatMul, rotate_L_z a0 a1 h00 h11 h01 σ q2 hσ, child_hh a0 a1 h00 h11 h01]
+
+include h00 h11 h01 in
+/-- `psi`, `theta`, `phi` of `axis_angle_ang` for the frame `(a0, a1, a0×a1)` with parity `σ = ±1`
+under `R(a0,q0)·R(a1,q1)·R(σ a0×a1, q2)` -/
+theorem hinge3_angles (p : V3 ℝ) (σ q0 q1 q2 : ℝ) (hσ : σ * σ = 1)
+    (hq0 : -Real.pi < q0) (hq0' : q0 ≤ Real.pi) (hq1 : |q1| ≤ 6 / 5)
+    (hq2 : -Real.pi < q2) (hq2' : q2 ≤ Real.pi) :
+    let r := axisAngleAng ⟨p, quatMul (quatMul (quatRotAxis a0 q0) (quatRotAxis a1 q1))
+        (quatRotAxis (L a0 a1 ⟨0, 0, σ⟩) q2)⟩ ⟨a0, a1, V3.cross a0 a1⟩ σ
+    r.2.psi = q0 ∧ r.2.theta = q1 ∧ r.2.phi = q2 := by
+  intro r
+  have hcos := cos_ge_of_abs_le q1 hq1
+  have hpi : |q1| < Real.pi := lt_of_le_of_lt hq1 (by linarith [Real.two_le_pi])
+  have hcs0 := Real.sin_sq_add_cos_sq q0
+  have hcs1 := Real.sin_sq_add_cos_sq q1
+  have hcs2 := Real.sin_sq_add_cos_sq q2
+  have hc0 := child_hhh a0 a1 h00 h11 h01 σ q0 q1 q2 hσ ⟨1, 0, 0⟩
+  have hc1 := child_hhh a0 a1 h00 h11 h01 σ q0 q1 q2 hσ ⟨0, 1, 0⟩
+  have hc2 := child_hhh a0 a1 h00 h11 h01 σ q0 q1 q2 hσ ⟨0, 0, 1⟩
+  rw [L_e0] at hc0; rw [L_e1] at hc1; rw [L_e2] at hc2
+  have hK2 : rx q0 (ry q1 (rz σ q2 ⟨0, 0, 1⟩)) = rx q0 (ry q1 ⟨0, 0, 1⟩) := by simp [rz]
+  rw [hK2] at hc2
+  -- line of nodes (as for two hinges)
+  have hlon : normalize3 (V3.cross (L a0 a1 (rx q0 (ry q1 ⟨0, 0, 1⟩))) a0)
+      = L a0 a1 ⟨0, Real.cos q0, Real.sin q0⟩ := by
+    rw [cross_L_a0 a0 a1 h00 h11 h01]
+    have : (⟨0, (rx q0 (ry q1 ⟨0, 0, 1⟩)).z, -(rx q0 (ry q1 ⟨0, 0, 1⟩)).y⟩ : V3 ℝ)
+        = ⟨Real.cos q1 * 0, Real.cos q1 * Real.cos q0, Real.cos q1 * Real.sin q0⟩ := by
+      simp only [rx, ry]; congr 1 <;> ring
+    rw [this]
+    exact normalize3_L_scale a0 a1 h00 h11 h01 (Real.cos q1) ⟨0, Real.cos q0, Real.sin q0⟩
+      (by simp only [V3.dot]; linear_combination hcs0) (by norm_num; linarith)
+  refine ⟨?_, ?_, ?_⟩
+  · simp only [r, axisAngleAng]
+    rw [hc2, hlon]
+    simp only [signedAngle]
+    rw [cross_a1_L a0 a1 h00 h11 h01, dot_comm _ a0, dot_a0_L a0 a1 h00 h11 h01,
+      dot_a1_L a0 a1 h00 h11 h01]
+    exact atan2_sin_cos q0 hq0 hq0'
+  · simp only [r, axisAngleAng]
+    rw [hc0, hc1, hc2, dot_a0_L a0 a1 h00 h11 h01, dot_a0_L a0 a1 h00 h11 h01,
+      dot_a0_L a0 a1 h00 h11 h01]
+    -- the projected first axis is `cos q1` times the first child axis of the two-hinge frame
+    have hraw : (⟨(rx q0 (ry q1 (rz σ q2 ⟨1, 0, 0⟩))).x * (L a0 a1 (rx q0 (ry q1 (rz σ q2 ⟨1, 0, 0⟩)))).x
+          + (rx q0 (ry q1 (rz σ q2 ⟨0, 1, 0⟩))).x * (L a0 a1 (rx q0 (ry q1 (rz σ q2 ⟨0, 1, 0⟩)))).x,
+        (rx q0 (ry q1 (rz σ q2 ⟨1, 0, 0⟩))).x * (L a0 a1 (rx q0 (ry q1 (rz σ q2 ⟨1, 0, 0⟩)))).y
+          + (rx q0 (ry q1 (rz σ q2 ⟨0, 1, 0⟩))).x * (L a0 a1 (rx q0 (ry q1 (rz σ q2 ⟨0, 1, 0⟩)))).y,
+        (rx q0 (ry q1 (rz σ q2 ⟨1, 0, 0⟩))).x * (L a0 a1 (rx q0 (ry q1 (rz σ q2 ⟨1, 0, 0⟩)))).z
+          + (rx q0 (ry q1 (rz σ q2 ⟨0, 1, 0⟩))).x * (L a0 a1 (rx q0 (ry q1 (rz σ q2 ⟨0, 1, 0⟩)))).z⟩ : V3 ℝ)
+        = L a0 a1 ⟨Real.cos q1 * (rx q0 (ry q1 ⟨1, 0, 0⟩)).x, Real.cos q1 * (rx q0 (ry q1 ⟨1, 0, 0⟩)).y,
+            Real.cos q1 * (rx q0 (ry q1 ⟨1, 0, 0⟩)).z⟩ := by
+      rw [← L_lin]
+      congr 1
+      simp only [rx, ry, rz]
+      congr 1
+      · linear_combination (Real.cos q1 ^ 2) * ((Real.sin q2 ^ 2) * hσ + hcs2)
+      · linear_combination (Real.cos q1 * Real.sin q0 * Real.sin q1) * ((Real.sin q2 ^ 2) * hσ + hcs2)
+      · linear_combination (-(Real.cos q1 * Real.cos q0 * Real.sin q1)) * ((Real.sin q2 ^ 2) * hσ + hcs2)
+    have hunit : V3.dot (rx q0 (ry q1 ⟨1, 0, 0⟩)) (rx q0 (ry q1 ⟨1, 0, 0⟩)) = 1 := by
+      simp only [rx, ry, V3.dot]
+      linear_combination hcs1 + (Real.sin q1 ^ 2) * hcs0
+    rw [hraw, normalize3_L_scale a0 a1 h00 h11 h01 _ _ hunit (by norm_num; linarith), dot_comm _ a0,
+      dot_a0_L a0 a1 h00 h11 h01]
+    have hk0x : (rx q0 (ry q1 ⟨1, 0, 0⟩)).x = Real.cos q1 := by simp [rx, ry]
+    have hk2x : (rx q0 (ry q1 ⟨0, 0, 1⟩)).x = Real.sin q1 := by simp [rx, ry]
+    rw [hk0x, hk2x]
+    have hclip : clip (Real.cos q1) (-1) 1 = Real.cos q1 := by
+      rw [clip_eq, max_eq_left (Real.neg_one_le_cos q1), min_eq_left (Real.cos_le_one q1)]
+    rw [hclip]
+    show Real.arccos (Real.cos q1) * signv (Real.sin q1) = q1
+    rw [arccos_cos_abs q1 (le_of_lt hpi)]
+    exact abs_mul_signv_sin q1 hpi
+  · simp only [r, axisAngleAng]
+    rw [hc1, hc2, hlon]
+    simp only [signedAngle]
+    have hycn : (⟨-(L a0 a1 (rx q0 (ry q1 ⟨0, 0, 1⟩))).x * σ, -(L a0 a1 (rx q0 (ry q1 ⟨0, 0, 1⟩))).y * σ,
+        -(L a0 a1 (rx q0 (ry q1 ⟨0, 0, 1⟩))).z * σ⟩ : V3 ℝ)
+        = L a0 a1 ⟨(-σ) * (rx q0 (ry q1 ⟨0, 0, 1⟩)).x, (-σ) * (rx q0 (ry q1 ⟨0, 0, 1⟩)).y,
+            (-σ) * (rx q0 (ry q1 ⟨0, 0, 1⟩)).z⟩ := by
+      rw [L_scale]; congr 1 <;> ring
+    rw [hycn, L_cross a0 a1 h00 h11 h01, L_dot a0 a1 h00 h11 h01, L_dot a0 a1 h00 h11 h01]
+    have hy : V3.dot (V3.cross (rx q0 (ry q1 (rz σ q2 ⟨0, 1, 0⟩))) ⟨0, Real.cos q0, Real.sin q0⟩)
+        ⟨(-σ) * (rx q0 (ry q1 ⟨0, 0, 1⟩)).x, (-σ) * (rx q0 (ry q1 ⟨0, 0, 1⟩)).y,
+          (-σ) * (rx q0 (ry q1 ⟨0, 0, 1⟩)).z⟩ = Real.sin q2 := by
+      simp only [rx, ry, rz, V3.dot, V3.cross]
+      linear_combination Real.sin q2 * ((Real.sin q0 ^ 2 + Real.cos q0 ^ 2)
+        * (Real.sin q1 ^ 2 + Real.cos q1 ^ 2) * hσ + (Real.sin q1 ^ 2 + Real.cos q1 ^ 2) * hcs0 + hcs1)
+    have hx : V3.dot (rx q0 (ry q1 (rz σ q2 ⟨0, 1, 0⟩))) ⟨0, Real.cos q0, Real.sin q0⟩ = Real.cos q2 := by
+      simp only [rx, ry, rz, V3.dot]
+      linear_combination Real.cos q2 * hcs0
+    rw [hy, hx]
+    exact atan2_sin_cos q2 hq2 hq2'
+
+include h00 h11 h01 in
+/-- `x_dof` on three stacked hinges with orthonormal axes of either handedness (`a2 = σ·a0×a1`) -/
+theorem xDof_three_hinges (p : V3 ℝ) (σ q0 q1 q2 : ℝ) (hσ : σ * σ = 1) (jd : Motion ℝ) (pidx : Int)
+    (hq0 : -Real.pi < q0) (hq0' : q0 ≤ Real.pi) (hq1 : |q1| ≤ 6 / 5)
+    (hq2 : -Real.pi < q2) (hq2' : q2 ≤ Real.pi) :
+    ∃ qd', xDof ⟨p, quatMul (quatMul (quatRotAxis a0 q0) (quatRotAxis a1 q1))
+          (quatRotAxis (L a0 a1 ⟨0, 0, σ⟩) q2)⟩ jd pidx
+        [⟨a0, ⟨0, 0, 0⟩⟩, ⟨a1, ⟨0, 0, 0⟩⟩, ⟨L a0 a1 ⟨0, 0, σ⟩, ⟨0, 0, 0⟩⟩] = some ([q0, q1, q2], qd') := by
+  have hany0 : v3Any a0 = true := v3Any_of_ne a0 (by rw [h00]; norm_num)
+  have hany1 : v3Any a1 = true := v3Any_of_ne a1 (by rw [h11]; norm_num)
+  have hany2 : v3Any (L a0 a1 ⟨0, 0, σ⟩) = true := v3Any_of_ne _ (by
+    rw [L_dot a0 a1 h00 h11 h01]; simp [V3.dot, hσ])
+  have hpar : V3.dot (V3.cross a0 a1) (L a0 a1 ⟨0, 0, σ⟩) = σ := by
+    rw [← L_e2 a0 a1, L_dot a0 a1 h00 h11 h01]; simp [V3.dot]
+  have hang := hinge3_angles a0 a1 h00 h11 h01 p σ q0 q1 q2 hσ hq0 hq0' hq1 hq2 hq2'
+  simp only at hang
+  simp only [xDof, linkToJointFrame, hany0, hany1, hany2, v3Any_zero, Bool.or_false, Bool.or_self,
+    Bool.and_false, Bool.false_eq_true, if_false, if_true, hpar]
+  simp only [List.zip_cons_cons, List.zip_nil_right, List.zipWith_cons_cons, List.zipWith_nil_right,
+    List.map_cons, List.map_nil, hany0, hany1, hany2, if_true, hang.1, hang.2.1, hang.2.2]
+  exact ⟨_, rfl⟩
+
+end frame
+
+theorem jcalc_two_hinges (d0 d1 : DofP ℝ) (a0 a1 : V3 ℝ) (q0 q1 qd0 qd1 : ℝ)
+    (hd0 : d0.motion = ⟨a0, ⟨0, 0, 0⟩⟩) (hd1 : d1.motion = ⟨a1, ⟨0, 0, 0⟩⟩)
+    (h00 : V3.dot a0 a0 = 1) (h11 : V3.dot a1 a1 = 1) :
+    (Kin.jcalc ⟨.two, [q0, q1], [qd0, qd1], [d0, d1]⟩).1
+      = ⟨⟨0, 0, 0⟩, quatMul (quatRotAxis a0 q0) (quatRotAxis a1 q1)⟩ := by
+  simp only [Kin.jcalc, List.zip_cons_cons, List.zip_nil_right, List.map_cons, List.map_nil,
+    List.foldl_cons, List.foldl_nil, Kin.jcalcDof, Kin.jcalcAcc, hd0, hd1,
+    normalize4_unit _ (quatRotAxis_normSq a0 q0 h00), normalize4_unit _ (quatRotAxis_normSq a1 q1 h11)]
+  simp only [Tf.doTf, zero_mul, V3.add_def, zero_add]
+  rw [rotate_zero]
+
+theorem jcalc_three_hinges (d0 d1 d2 : DofP ℝ) (a0 a1 a2 : V3 ℝ) (q0 q1 q2 qd0 qd1 qd2 : ℝ)
+    (hd0 : d0.motion = ⟨a0, ⟨0, 0, 0⟩⟩) (hd1 : d1.motion = ⟨a1, ⟨0, 0, 0⟩⟩)
+    (hd2 : d2.motion = ⟨a2, ⟨0, 0, 0⟩⟩)
+    (h00 : V3.dot a0 a0 = 1) (h11 : V3.dot a1 a1 = 1) (h22 : V3.dot a2 a2 = 1) :
+    (Kin.jcalc ⟨.three, [q0, q1, q2], [qd0, qd1, qd2], [d0, d1, d2]⟩).1
+      = ⟨⟨0, 0, 0⟩, quatMul (quatMul (quatRotAxis a0 q0) (quatRotAxis a1 q1)) (quatRotAxis a2 q2)⟩ := by
+  simp only [Kin.jcalc, List.zip_cons_cons, List.zip_nil_right, List.map_cons, List.map_nil,
+    List.foldl_cons, List.foldl_nil, Kin.jcalcDof, Kin.jcalcAcc, hd0, hd1, hd2,
+    normalize4_unit _ (quatRotAxis_normSq a0 q0 h00), normalize4_unit _ (quatRotAxis_normSq a1 q1 h11),
+    normalize4_unit _ (quatRotAxis_normSq a2 q2 h22)]
+  simp only [Tf.doTf, zero_mul, V3.add_def, zero_add]
+  rw [rotate_zero, rotate_zero]
+  simp only [add_zero]
+
 /-! ## concrete data for the non-vacuity examples -/
 
 /-- a link with an offset, a rotated frame (unit quaternion `(3/5, 0, 4/5, 0)`) and an anchor away
